@@ -4,6 +4,7 @@ import DimodProofs.C03Poly
 import DimodProofs.C03Witness
 import DimodProofs.C03Fix
 import DimodProofs.C03CopyCqm
+import DimodProofs.C03Multi
 
 /-! # C03 — fixing a variable equals substituting its value everywhere
 
@@ -58,6 +59,20 @@ theorem cqm_fix_inplace_eval (m : CqmC R) (hm : m.WF) (v : Nat) (a : R) (X' X : 
     (`fix_variables(…, inplace=True)` is this step repeated) -/
 theorem cqm_fix_preserves_invariant (m : CqmC R) (hm : m.WF) (v : Nat) (a : R) : (m.fixVariable v a).WF :=
   CqmC.WF_fixVariable m hm v a
+
+/-- **several variables fixed in place** (`fix_variables(fixed, inplace=True)` = `cyconstrained.fix_variable` repeated, the remaining
+    variables moving down after every step; composed statement). Assignments are given by label: for any valuation `val` that
+    gives every fixed label its value, the result — evaluated at `k ↦ val (remaining label k)` — has, for the objective and every
+    constraint left-hand side, the value of the original evaluated at `g ↦ val (label g)`; the call succeeds, the remaining
+    labels are the non-fixed ones in their old order, constraint labels and sense / rhs / weight / penalty are unchanged
+    (`CqmC.Rel`), and the invariant holds again -/
+theorem cqm_fix_many_inplace_eval [DecidableEq R] (m : CqmL R) (hm : m.c.WF) (hnd : m.labels.Nodup) (fixed : List (Label × R))
+    (hfd : (fixed.map (·.1)).Nodup) (hall : ∀ p ∈ fixed, p.1 ∈ m.labels) (val : Label → R) (hval : ∀ p ∈ fixed, val p.1 = p.2) :
+    let r := m.fixVariablesInplace fixed
+    r.2 = true ∧ r.1.c.WF ∧ r.1.labels.Nodup ∧ r.1.labels.Sublist m.labels ∧
+    (∀ l, l ∈ r.1.labels ↔ l ∈ m.labels ∧ l ∉ fixed.map (·.1)) ∧ r.1.clabels = m.clabels ∧
+    CqmC.Rel r.1.c m.c (valL val r.1.labels) (valL val m.labels) :=
+  CqmL.fixVariablesInplace_spec m hm hnd fixed hfd hall val hval
 
 /-- the vartype/bounds table loses exactly the fixed variable's row -/
 theorem cqm_fix_varinfo (m : CqmC R) (v : Nat) (a : R) : (m.fixVariable v a).info = m.info.eraseIdx v :=
